@@ -44,6 +44,9 @@ inductive Prog (α : Type) where
   | fail (e : RadioError)
   | panic (site : String)
   | io (req : Io) (k : Bytes → Prog α)
+  /-- a request whose failure is handed to the continuation (`none`) instead of leaving the
+  function: the shape of `let r = fut.await;` without `?` (used by `process_irq_event`) -/
+  | ioE (req : Io) (k : Option Bytes → Prog α)
 
 namespace Prog
 
@@ -52,6 +55,7 @@ def bind {α β : Type} : Prog α → (α → Prog β) → Prog β
   | .fail e, _ => .fail e
   | .panic s, _ => .panic s
   | .io req k, f => .io req (fun bs => bind (k bs) f)
+  | .ioE req k, f => .ioE req (fun r => bind (k r) f)
 
 instance : Monad Prog where
   pure := .ret
@@ -88,6 +92,26 @@ def intfRead (w : Bytes) (n : Nat) : Prog Bytes := do
   let bs ← Prog.xfer w n
   Prog.req .busy
   pure bs
+
+/-- `intf.read_with_status(..)` whose `Result` is kept as a value (no `?`) -/
+def intfReadWithStatusE (w : Bytes) (n : Nat) : Prog (Except RadioError (UInt8 × Bytes)) :=
+  .ioE (.spi w (1 + n)) fun r =>
+    match r with
+    | none => .ret (.error .SPI)
+    | some bs => .ioE .busy fun r2 =>
+      match r2 with
+      | none => .ret (.error .Busy)
+      | some _ => .ret (.ok (UInt8.ofNat (match bs[0]? with | some b => b.toNat | none => 0), bs.drop 1))
+
+/-- `intf.read(..)` whose `Result` is kept as a value (no `?`) -/
+def intfReadE (w : Bytes) (n : Nat) : Prog (Except RadioError Bytes) :=
+  .ioE (.spi w n) fun r =>
+    match r with
+    | none => .ret (.error .SPI)
+    | some bs => .ioE .busy fun r2 =>
+      match r2 with
+      | none => .ret (.error .Busy)
+      | some _ => .ret (.ok bs)
 
 /-- `intf.read_with_status(write_buffer, read_buffer)`: the status byte, then the `n` data bytes
 (`status` is a one-element array in Rust: indexing it cannot fail) -/
@@ -265,6 +289,19 @@ def run {α : Type} : Prog α → World → Out α × World
         let (bs, chip') := w.chip.transact wr r
         run (k bs) { w1 with chip := chip' }
       | _ => run (k []) w1
+  | .ioE (.delay ms) k, w => run (k (some [])) { w with log := w.log ++ [⟨.delay ms, .done⟩] }
+  | .ioE req k, w =>
+    if req = .irq ∧ w.pendAt = some w.step then
+      (.dropped, { w with log := w.log ++ [⟨req, .pending⟩], step := w.step + 1 })
+    else if w.fault = some w.step then
+      run (k none) { w with log := w.log ++ [⟨req, .failed⟩], step := w.step + 1 }
+    else
+      let w1 := { w with log := w.log ++ [⟨req, .done⟩], step := w.step + 1 }
+      match req with
+      | .spi wr r =>
+        let (bs, chip') := w.chip.transact wr r
+        run (k (some bs)) { w1 with chip := chip' }
+      | _ => run (k (some [])) w1
 
 /-- the SPI transactions of a transcript, canonically: the MOSI byte stream of each transaction
 (written bytes, then one idle 0x00 per byte read) -/
@@ -289,6 +326,11 @@ def trace {α : Type} : Prog α → Chip → List Bytes × Chip × Out α
     let (t, c'', o) := trace (k bs) c'
     ((w ++ List.replicate r 0) :: t, c'', o)
   | .io _ k, c => trace (k []) c
+  | .ioE (.spi w r) k, c =>
+    let (bs, c') := c.transact w r
+    let (t, c'', o) := trace (k (some bs)) c'
+    ((w ++ List.replicate r 0) :: t, c'', o)
+  | .ioE _ k, c => trace (k (some [])) c
 
 def spiTrace {α : Type} (p : Prog α) (c : Chip) : List Bytes := (trace p c).1
 
